@@ -45,7 +45,29 @@ JOBQUEUE = {
     "monitor": {"module": "MonJobQueue.tla", "cfg": "MonJobQueue.cfg"},
 }
 
-MODULES = {"jobqueue": JOBQUEUE}
+# ---------------------------------------------------------------- JobLife
+JOBLIFE = {
+    "name": "joblife",
+    "vh": "joblife",
+    "design": {"quick": [], "thorough": []},
+    "sim": {"quick": [], "thorough": []},
+    "harness": {
+        "quick": [
+            {"name": "random-fresh", "args": ["joblife", "-mode", "random", "-seed", "{seed}", "-runs", "200", "-steps", "120", "-fresh"]},
+            {"name": "random-lag", "args": ["joblife", "-mode", "random", "-seed", "{seed}", "-runs", "200", "-steps", "120"]},
+        ],
+        "thorough": [
+            {"name": "random-fresh", "args": ["joblife", "-mode", "random", "-seed", "{seed}", "-runs", "3000", "-steps", "130", "-fresh"]},
+            {"name": "random-lag", "args": ["joblife", "-mode", "random", "-seed", "{seed}", "-runs", "3000", "-steps", "130"]},
+            {"name": "random-skew", "args": ["joblife", "-mode", "random", "-seed", "{seed}", "-runs", "1500", "-steps", "130", "-skew"]},
+            {"name": "random-applied", "args": ["joblife", "-mode", "random", "-seed", "{seed}", "-runs", "1500", "-steps", "130", "-applied"]},
+            {"name": "random-fresh-applied", "args": ["joblife", "-mode", "random", "-seed", "{seed}", "-runs", "1500", "-steps", "130", "-fresh", "-applied"]},
+        ],
+    },
+    "monitor": {"module": "MonJobLife.tla", "cfg": "MonJobLife.cfg"},
+}
+
+MODULES = {"jobqueue": JOBQUEUE, "joblife": JOBLIFE}
 
 PROPS = {
     "C05": {"modules": ["jobqueue"], "assumptions": [
@@ -58,11 +80,25 @@ PROPS = {
         "the JobConfigs of this module have no cron schedule, so the expected idle state is Ready (ReadyEnabled/ReadyDisabled are exercised in the cron module)"]},
 }
 
+JL_ASSUME = [
+    "TLC, the Json/IOUtils community modules, and the harness's SimAPI semantics (finalizers, graceful/forced Pod deletion, resourceVersion conflicts, status sub-resource) are trusted",
+    "user-set fields (killTimestamp, deletion) and Pod state are judged against what the pass could see at its SyncBegin (knowledge lag, DESIGN 3.7)",
+    "one Job per world; the queue controller's start write is an environment step",
+]
+for _p in ("C08", "C09", "C10", "C11", "C12", "C13"):
+    PROPS[_p] = {"modules": ["joblife"], "assumptions": JL_ASSUME}
+
 FORMULAS = {
     "C05": ["C05_Admission"],
     "C06": ["C06_Fifo", "C06_EnqueueNeverRefused", "C06_AllowNeverRefused", "C06_RefusedOnlyAtLimit", "C06_NoStuck"],
     "C07": ["C07_NotEarly", "C07_NotEarlyStep", "C07_IndependentStarts", "C07_RefusedOnlyWhenDue"],
     "C15": ["C15_Exact", "C15_Monotone", "C15_Covers"],
+    "C08": ["C08_OneLive", "C08_Order", "C08_Delay", "C08_Gates"],
+    "C09": ["C09_Keep", "C09_NotLost", "C09_NoForeignAdopt", "C09_Listed", "C09_ForeignEnds"],
+    "C10": ["C10_SuccOnly", "C10_FailOnly", "C10_RefMatchesTask", "C10_NoLiveAtFinish", "C10_Reaches", "C10_Progress"],
+    "C11": ["C11_Coherent", "C11_Monotone"],
+    "C12": ["C12_DeleteJustified", "C12_ForceGate", "C12_KillCompletes", "C12_PendingCompletes"],
+    "C13": ["C13_Order", "C13_TTLNotEarly", "C13_DeletionCompletes", "C13_TTLEventually"],
 }
 
 
